@@ -62,6 +62,14 @@ pub fn setup_opts(t: &mut Tape, mode: Mode, loaded: bool) -> TrafficRun {
         };
         peers.insert(a, (kind, delay));
     }
+    // address 126 (the factory-default address of a new DP device) is a legal destination: in the C15
+    // runs a conforming peer whose address is 1 mod 4 answers under 126 instead
+    if mode == Mode::C15 {
+        if let Some(a) = peers.iter().find(|(a, (k, _))| **a % 4 == 1 && *k == PeerKind::Answer).map(|(a, _)| *a) {
+            let v = peers.remove(&a).unwrap();
+            peers.insert(126, v);
+        }
+    }
     let targets: Vec<u8> = peers.keys().copied().collect();
     // a few passive stations inside the masters' GAPs as well (they answer the FDL's GAP polls)
     for _ in 0..t.below(4) {
@@ -857,7 +865,7 @@ fn chunked_reply_case(i: u64, obs: &mut Obs) -> CaseResult {
 pub fn c15() -> Property {
     Property {
         id: "C15",
-        rule: "cases: rings of 1..3 real stations with 0..3 instrumented applications each (poll / poll_multi; arbitrary send/decline behaviour, SRD/SDA/SDN requests) and scripted peers: correct, silent, late (after the slot time), response with foreign source, response to a foreign destination, request instead of response, token frame as answer. Oracle on the callback log + bus trace: transmit_telegram only while the trace says the station owns the token and never while a request is outstanding (unless the FDL gave up on it because another telegram was heard); per request at most one of {reply, time-out}, delivered to the sending application with addr = destination of the request; a delivered reply is SC or a response with source = addressed station and destination = this station; the callee changes only after a decline, to index+1 mod n; after every application declined once the token is passed before anybody is asked again. Non-trivial = at least one reply or time-out was delivered; distinct by configuration, application specs and peers.",
+        rule: "cases: rings of 1..3 real stations with 0..3 instrumented applications each (poll / poll_multi; arbitrary send/decline behaviour, SRD/SDA/SDN requests) and scripted peers: correct (one of them, now and then, under address 126, the default address of a new device), silent, late (after the slot time), response with foreign source, response to a foreign destination, request instead of response, token frame as answer. Oracle on the callback log + bus trace: transmit_telegram only while the trace says the station owns the token and never while a request is outstanding (unless the FDL gave up on it because another telegram was heard); per request at most one of {reply, time-out}, delivered to the sending application with addr = destination of the request; a delivered reply is SC or a response with source = addressed station and destination = this station; the callee changes only after a decline, to index+1 mod n; after every application declined once the token is passed before anybody is asked again. Non-trivial = at least one reply or time-out was delivered; distinct by configuration, application specs and peers.",
         assumptions: vec![
             "token ownership is reconstructed from the token frames on the recorded trace",
             "a request that is neither answered nor timed out is legitimate only when some other node's telegram completed on the bus after it (the FDL then backs off to ActiveIdle)",
